@@ -342,3 +342,14 @@ _WIDEN_N = {'C11': 6000, 'C04': 2500, 'C06': 24000, 'C19': 4000, 'C01': 3000, 'C
             'C18': 6000, 'C05': 4000, 'C08': 10000, 'C07': 2500, 'C12': 6000, 'C14': 8000, 'C13': 1500, 'C16': 600, 'C09': 800, 'C10': 800}
 for _k, _v in _WIDEN_N.items():
     PROPS[_k].setdefault('widen_n', _v)
+
+_LEVEL_EXTRA = {
+    "C05": " Column-changing branches: the by-name resolution `resolveRecCols` used for them is proved to coincide with the same-columns resolution when all tables share the base's columns (C05_cols_model_extends_same).",
+    "C06": " Block index codec: round trip, re-encoding and injectivity (C06_blockIndex_*); the pre-allocation cap of the decoders is extracted as never bounding a read loop.",
+    "C08": " Across wants: C08_all_wants (one whole call of enqueueWants: closed for every non-pending want, acceptable at every position, sound). Across the round's bookkeeping: C08_accepts_reachable_wants and C08_process_sound (Process accepts exactly the wants reachable from refs whatever the timestamps; every ack is a have that is an ancestor of a ref).",
+    "C11": " Walks from any list of start points, repeats included, pop every ancestor exactly once (C11_walk_multi_each_once).",
+    "C14": " Discard interrupted at any store operation touches no branch, reports success only when everything is gone, and completes on re-run (C14_discard_fault).",
+    "C16": " Error reporting never blocks when the channel has one slot per sender (C16_error_report_never_blocks; the capacities of the ingest and merge error channels are extracted facts).",
+}
+for _k, _v in _LEVEL_EXTRA.items():
+    PROPS[_k]["level_text"] = PROPS[_k]["level_text"] + _v
